@@ -48,3 +48,6 @@ import Mp.CueAstProofs
 #print axioms Mp.acc_params
 #print axioms Mp.acc_logic
 #print axioms Mp.accepted_reads_no_blocked_field
+#print axioms Mp.validateKeys_acc_found
+#print axioms Mp.vParts_idents
+#print axioms Mp.vTop_key_path
